@@ -220,6 +220,12 @@ def rule_dangling_fields(chk, prog, rid, only_modules=None, floor=10):
                             path.startswith(P.path(x.ops[0])):
                         return True
                     return False
+                # the field may already have been given its new value between the read of the old one and the release
+                # (`old = t->table; t->table = fresh; free(old);`)
+                cfg = cfg_of(f)
+                if any(x.op == "store" and P.path(x.ops[1]) == path and cfg.dominates(ld, x) and cfg.dominates(x, i) for x in f.instrs()):
+                    chk.proven(rid, f.name, sig, i.locstr(), "the field was overwritten between the read of the old block and its release")
+                    continue
                 w = reach_avoiding(f, i, lambda x: x.op == "ret", is_avoid, _known_equalities(f, i.block))
                 if w is None:
                     chk.proven(rid, f.name, sig, i.locstr(), "the field is overwritten, or its holder released, on every path to a return")
